@@ -736,7 +736,25 @@ fn describe_served(served: &[Served]) -> String {
     if out.is_empty() { "nothing (the node was not contacted)".into() } else { out.join(", ") }
 }
 
+/// A panic of the importer under test (or of the harness) during one history must not take the
+/// exploration down: it becomes that history's outcome and the exploration goes on.
 pub fn replay(scratch: &Path, cfg: Cfg, mode: Mode, fresh: &FreshCache, history: &[Ev]) -> RunResult {
+    match mc_core::catch(|| replay_inner(scratch, cfg, mode, fresh, history)) {
+        Ok(r) => r,
+        Err(e) => {
+            let loc = mc_core::last_panic_location();
+            RunResult {
+                canon: format!("PANIC@{loc}"),
+                violations: vec![],
+                nontrivial: false,
+                outcome: format!("PANIC@{loc}:{}", e.chars().take(60).collect::<String>()),
+                disabled: false,
+            }
+        }
+    }
+}
+
+fn replay_inner(scratch: &Path, cfg: Cfg, mode: Mode, fresh: &FreshCache, history: &[Ev]) -> RunResult {
     thread_local! {
         // one single-threaded runtime per worker thread (its blocking-pool thread is reused by the imports)
         static RT: tokio::runtime::Runtime =
